@@ -845,3 +845,61 @@ func checkLoopsHaveNoEarlyExit(c *Ctx, rule string, fn *ssa.Function, what strin
 	}
 	c.Floor(rule, "loops in "+fn.Name(), n, 1)
 }
+
+// checkTxRecordHashIsTxid (sibling agreement): the store keys a transaction's record, credits and debits by TxRecord.Hash
+// and finds spenders by the previous-outpoint hashes of later transactions — which are transaction ids. Both exported
+// constructors must therefore set Hash to the transaction's id (MsgTx.TxHash); hashing the bytes handed in gives the
+// witness hash for a witness-serialized transaction, and everything recorded for it becomes unreachable.
+func checkTxRecordHashIsTxid(c *Ctx, rule string) {
+	p := c.P
+	n := 0
+	for _, fn := range p.FuncsIn("wtxmgr") {
+		if fn.Parent() != nil || fn.Object() == nil || !fn.Object().Exported() || fn.Signature.Recv() != nil {
+			continue
+		}
+		res := fn.Signature.Results()
+		if res.Len() == 0 || !strings.HasSuffix(res.At(0).Type().String(), "wtxmgr.TxRecord") {
+			continue
+		}
+		n++
+		fromTxid, otherwise := false, ""
+		for _, b := range fn.Blocks {
+			for _, ins := range b.Instrs {
+				switch x := ins.(type) {
+				case *ssa.Store:
+					fa, ok := x.Addr.(*ssa.FieldAddr)
+					if !ok {
+						continue
+					}
+					if tn, f := fieldAddrName(fa); tn != "TxRecord" || f != "Hash" {
+						continue
+					}
+					ok = false
+					for _, o := range (&Slicer{P: p, KeepExtract: true}).Origins(x.Val) {
+						if call, isCall := o.(*ssa.Call); isCall && calleeShort(&call.Call) == "TxHash" {
+							ok = true
+						}
+					}
+					if ok {
+						fromTxid = true
+					} else {
+						otherwise = "assigned from " + describeValue(x.Val)
+					}
+				case *ssa.Call:
+					if calleeShort(&x.Call) == "copy" && len(x.Call.Args) == 2 {
+						if sl, ok := stripConv(x.Call.Args[0]).(*ssa.Slice); ok {
+							if fa, ok := sl.X.(*ssa.FieldAddr); ok {
+								if tn, f := fieldAddrName(fa); tn == "TxRecord" && f == "Hash" {
+									otherwise = "filled by copy from " + describeValue(x.Call.Args[1])
+								}
+							}
+						}
+					}
+				}
+			}
+		}
+		c.Check(rule, "record-hash-is-transaction-id:"+fn.Name(), fn.Pos(), fromTxid && otherwise == "",
+			fn.Name()+" does not set TxRecord.Hash to the transaction's id (MsgTx.TxHash) ("+otherwise+"): for a witness-serialized transaction the record is stored under its witness hash, which no spending transaction refers to")
+	}
+	c.Floor(rule, "exported constructors of TxRecord", n, 2)
+}
